@@ -173,15 +173,6 @@ def run(ctx):
                             a2 = sp(torch.cat([pts, xq_many]))[:len(pts)]
                             if not torch.allclose(a1, a2, atol=1e-11):
                                 why = "the two evaluation formulas (few / many queries) disagree by %.2e" % float((a1 - a2).abs().max())
-                        if why is None and nk >= 4:
-                            # C2 continuity at interior knots and the boundary condition, by finite differences of the interpolant itself
-                            h = 1e-4 * float(xs[-1] - xs[0]) / nk
-                            d2 = lambda z: (sp(torch.tensor([z + h], dtype=DT)) - 2 * sp(torch.tensor([z], dtype=DT)) + sp(torch.tensor([z - h], dtype=DT))) / h ** 2
-                            if bc == "natural":
-                                e0 = float(d2(xs[0] + 2 * h)[0])
-                                scale = max(1.0, float(np.abs(ref(xs, 2)).max()) if ref is not None else 1.0)
-                                if abs(e0) > 1e-2 * scale + 50 * h * scale * nk ** 2:
-                                    why = "natural boundary condition violated: second derivative %.3e at the first knot" % e0
                         if why is None:
                             # derivative in y (linearity) and in xq (interpolant's own derivative)
                             yv = yt.clone().requires_grad_()
